@@ -162,6 +162,8 @@ def function(ip: Interp, fn: PyConst, args, kwargs, n):
         (x,) = args
         if isinstance(x, PyTuple):
             return x
+        if isinstance(x, GenExp):
+            return ElemBag(_image_set(ip, x, n))
         return Val.vtup(ip.as_seq(x, n))
     if name == 'dict':
         if not args:
@@ -177,6 +179,10 @@ def function(ip: Interp, fn: PyConst, args, kwargs, n):
         (x,) = args
         if z3.is_expr(x) and z3.is_array(x):
             return x
+        if isinstance(x, ElemBag):
+            return x.members
+        if isinstance(x, GenExp):
+            return _image_set(ip, x, n)
         if isinstance(x, PyTuple) and not x.items:
             return z3.K(z3.StringSort(), z3.BoolVal(False))
         if x is None:
@@ -294,14 +300,18 @@ def function(ip: Interp, fn: PyConst, args, kwargs, n):
         return S.UNIONS['Outcome'].o_none
     if name == 'o_ok':
         return S.UNIONS['Outcome'].o_ok(ip.coerce_sort(args[0], S.RECORDS['RuleResultR'], n))
-    if name == 'forall_keys':
+    if name in ('forall_keys', 'exists_key'):
         d, f = args
-        ks = d.f['okeys'] if isinstance(d, PRec) and 'okeys' in d.f else d.f['mkeys']
-        ksort = ks.sort().basis() if S.is_seq(ks) else ks.sort().domain()
+        if z3.is_expr(d) and z3.is_array(d):
+            ksort = d.sort().domain()  # a set (Array K Bool): the quantifier ranges over the key sort
+        else:
+            ks = d.f['okeys'] if isinstance(d, PRec) and 'okeys' in d.f else d.f['mkeys']
+            ksort = ks.sort().basis() if S.is_seq(ks) else ks.sort().domain()
         k = z3.FreshConst(ksort, 'key')
         body = ip.call_closure(f, None, [k], {}, n)
         body = ip.truth(body, n)
-        return z3.ForAll([k], body if z3.is_expr(body) else z3.BoolVal(body))
+        body = body if z3.is_expr(body) else z3.BoolVal(body)
+        return z3.ForAll([k], body) if name == 'forall_keys' else z3.Exists([k], body)
     if name == 'is_suffix':
         a, b = args
         return z3.SuffixOf(a, b)
@@ -589,6 +599,8 @@ def _isinstance1(ip, x, cc: PyConst, n):
             cls = ip.w.uf('astnode_class', z3.IntSort(), z3.IntSort())(x.ident)
             return cls == ip.kind_id('ast.' + name)
         return False
+    if isinstance(x, Opaque) and cc.kind == 'class' and x.kind in ip.w.registry.classes.get(name, {}).get('opaque_kinds', ()):
+        return True
     if isinstance(x, Opaque):
         if cc.kind == 'modelclass' and x.kind == 'Model':
             cls = ip.w.uf('model_class', z3.IntSort(), z3.IntSort())(x.ident)
@@ -647,6 +659,42 @@ def _isinstance1(ip, x, cc: PyConst, n):
             ip.oos(f'isinstance(Val, {name})', n)
         return False
     ip.oos(f'isinstance against {cc.kind} {name}', n)
+
+
+class ElemBag:
+    """tuple(<generator over a set of strings>): only its set of elements is modelled (order and multiplicity are
+    not); the only operations offered are set()/frozenset() and truth."""
+
+    def __init__(self, members):
+        self.members = members
+
+
+def _image_set(ip: Interp, g, n):
+    """{ f(k) for k in K } for a set of strings K (Array String Bool) and an element expression f without effects:
+    a fresh set M with  forall k. K[k] -> M[f(k)]  and  forall s. M[s] -> K[w(s)] and f(w(s)) == s  (w: Skolem function)."""
+    node = g.node
+    owner: Interp = g.interp
+    if len(node.generators) != 1 or node.generators[0].ifs:
+        ip.oos('generator over a set with conditions / several loops', n)
+    gen = node.generators[0]
+    sub = Interp(ip.p, owner.module, dict(owner.env), spec=True, cls=owner.cls, fname=owner.fname + '<genexp>')
+    sub.contract = owner.contract
+    K = sub.ev(gen.iter)
+    if isinstance(K, ElemBag):
+        K = K.members
+    if isinstance(K, PyTuple) and not K.items:
+        return z3.K(z3.StringSort(), z3.BoolVal(False))
+    if not (z3.is_expr(K) and z3.is_array(K) and K.sort().domain() == z3.StringSort()):
+        ip.oos('generator over something that is not a set of strings', n)
+    k = ip.p.fresh('k', z3.StringSort())
+    sub.assign(gen.target, k)
+    fk = sub.as_str(sub.ev(node.elt), n)
+    M = ip.p.fresh('image', K.sort())
+    w = z3.Function(f'witness!{ip.p.counter}', z3.StringSort(), z3.StringSort())
+    sv = ip.p.fresh('s', z3.StringSort())
+    ip.p.path_axioms.append(z3.ForAll([k], z3.Implies(z3.Select(K, k), z3.Select(M, fk))))
+    ip.p.path_axioms.append(z3.ForAll([sv], z3.Implies(z3.Select(M, sv), z3.And(z3.Select(K, w(sv)), z3.substitute(fk, (k, w(sv))) == sv))))
+    return M
 
 
 def quantify(ip: Interp, g, universal: bool, n):
